@@ -29,6 +29,7 @@ struct GroupCfg {
     rr: bool,
     fam_mask: u64,
     addpath: u8,
+    gr: bool,
 }
 
 #[derive(Clone, Debug)]
@@ -43,10 +44,30 @@ struct StaticCfg {
     addpath: u8,
     gr: bool,
     active: bool,
+    /// per-family maximum number of prefixes (0 = none)
+    plimit: u32,
+    /// families of the graceful-restart capability (its own, or the group's when inherited)
+    gr_mask: u64,
+}
+
+/// A neighbour configured through the gRPC API (AddPeer), optionally as a member of a peer group
+/// whose settings it inherits where it has none of its own.
+#[derive(Clone, Debug)]
+struct ApiPeerCfg {
+    addr: String,
+    asn: u32,
+    hold: u64,
+    fam_mask: u64,
+    addpath: u8,
+    gr: bool,
+    plimit: u32,
+    rs: bool,
+    rr: bool,
+    group: i64,
 }
 
 fn addr_pool() -> Vec<&'static str> {
-    vec!["10.0.1.1", "10.0.1.2", "10.0.1.3", "10.9.0.5", "10.9.1.5", "10.9.1.77", "10.8.0.1", "192.168.7.7", "2001:db8:9::5", "2001:db8:9:1::9", "2001:db8:8::1"]
+    vec!["10.0.2.1", "10.0.2.2", "10.0.1.1", "10.0.1.2", "10.0.1.3", "10.9.0.5", "10.9.1.5", "10.9.1.77", "10.8.0.1", "192.168.7.7", "2001:db8:9::5", "2001:db8:9:1::9", "2001:db8:8::1"]
 }
 
 impl Check for Admission {
@@ -82,7 +103,19 @@ impl Check for Admission {
             .map(|g| {
                 let np = if rng.chance(1, 8) { 5 } else { 4 };
                 jobj! {"prefix" => *rng.pick(&prefixes[..np]), "asn" => *rng.pick(&[0u64, 65100 + g, 65100 + g]), "hold" => *rng.pick(&[0u64, 30, 240]),
-                       "rs" => rng.chance(1, 5), "rr" => false, "fams" => *rng.pick(&[0u64, 1, 3]), "addpath" => rng.below(4)}
+                       "rs" => rng.chance(1, 5), "rr" => false, "fams" => *rng.pick(&[0u64, 1, 3]), "addpath" => rng.below(4), "gr" => rng.chance(1, 3)}
+            })
+            .collect();
+        let n_api = rng.range(0, 2);
+        let api_peers: Vec<Json> = (0..n_api)
+            .map(|k| {
+                // member of a named group (the groups above double as named groups) in 2 of 3 cases
+                let group: i64 = if n_groups > 0 && rng.chance(2, 3) { rng.below(n_groups) as i64 } else { -1 };
+                let g_asn = if group >= 0 { groups[group as usize].i("asn", 0) as u64 } else { 0 };
+                let asn = if g_asn != 0 && rng.chance(1, 3) { 0 } else { *rng.pick(&[65000u64, 65021 + k, 65021 + k]) };
+                let fams = *rng.pick(&[0u64, 1, 3, 5]);
+                jobj! {"addr" => format!("10.0.2.{}", k + 1), "asn" => asn, "hold" => *rng.pick(&[0u64, 0, 9, 90]), "fams" => fams, "addpath" => if fams != 0 { rng.below(4) } else { 0 },
+                       "gr" => fams != 0 && rng.chance(1, 3), "plimit" => if fams != 0 && rng.chance(1, 2) { rng.range(1, 5) } else { 0 }, "rs" => rng.chance(1, 6), "rr" => asn == 65000 && rng.coin(), "group" => group}
             })
             .collect();
         let pool = addr_pool();
@@ -90,18 +123,20 @@ impl Check for Admission {
         let mut ops = Vec::new();
         for _ in 0..n {
             let a = rng.below(pool.len() as u64);
-            match rng.weighted(&[30, 12, 14, 4, 4, 3, 3, 6]) {
+            match rng.weighted(&[30, 12, 14, 4, 4, 3, 3, 6, if n_api > 0 { 8 } else { 0 }, if n_api > 0 { 2 } else { 0 }]) {
                 0 => ops.push(jarr!["conn", a, rng.below(4), *rng.pick(&[0u64, 1, 3, 5, 15]), rng.below(4)]),
                 1 => ops.push(jarr!["handshake", a]),
                 2 => ops.push(jarr!["close", a]),
                 3 => ops.push(jarr!["disable", rng.below(n_static)]),
                 4 => ops.push(jarr!["enable", rng.below(n_static)]),
                 5 => ops.push(jarr!["second", a]),
+                8 => ops.push(jarr!["api-add", rng.below(n_api.max(1))]),
+                9 => ops.push(jarr!["api-del", rng.below(n_api.max(1))]),
                 7 => ops.push(jarr!["dial", rng.below(n_static), rng.below(4), *rng.pick(&[0u64, 1, 3, 5, 15]), rng.below(4), rng.chance(1, 3)]),
                 _ => ops.push(jarr!["wait", *rng.pick(&[10u64, 4000])]),
             }
         }
-        jobj! {"confed" => confed, "statics" => Json::Arr(statics), "groups" => Json::Arr(groups), "sub" => rng.next_u64() >> 1, "ops" => Json::Arr(ops)}
+        jobj! {"confed" => confed, "statics" => Json::Arr(statics), "groups" => Json::Arr(groups), "api_peers" => Json::Arr(api_peers), "sub" => rng.next_u64() >> 1, "ops" => Json::Arr(ops)}
     }
 
     fn execute(&self, case: &Json, tol: &Tolerate) -> Outcome {
@@ -114,7 +149,7 @@ impl Check for Admission {
 
     fn info(&self) -> CheckInfo {
         CheckInfo {
-            rule: "1-3 static neighbours (eBGP / iBGP / RR client / RS client / confed member, admin-down flags, hold 0/9/90/180, family sets, add-path modes, GR) and 0-3 peer groups with dynamic prefixes (nested and overlapping IPv4, IPv6, 0.0.0.0/0); connections from 11 source addresses inside and outside them; ops connect (with a drawn remote capability list: family set, add-path mode 0-3, GR), complete the handshake, close, open a second connection in the same direction, operator disable/enable, waits, and `dial`: the remote side of a non-passive neighbour listens and takes the daemon's own outgoing connection, in one third of the cases with an operator task that disables the neighbour at the instant the TCP handshake completes (after the connect task queued the socket, before the dispatch loop took it). Oracle on the wire and on Global: a connection is served (OPEN sent) iff the reference admission predicate holds, otherwise closed before any OPEN byte; the OPEN's AS (confederation id towards non-members), hold time, router id and capability list equal the neighbour's or group's configuration; role read back from the peer record equals the reference; both negotiate(a,b)/negotiate(b,a) give mirror-image parameters; a dynamic neighbour's record disappears when its last connection ends. non-trivial = at least one dynamic neighbour was created or one connection was refused".into(),
+            rule: "1-3 static neighbours (eBGP / iBGP / RR client / RS client / confed member, admin-down flags, hold 0/9/90/180, family sets, add-path modes, GR) and 0-3 peer groups with dynamic prefixes (nested and overlapping IPv4, IPv6, 0.0.0.0/0); connections from 11 source addresses inside and outside them; ops connect (with a drawn remote capability list: family set, add-path mode 0-3, GR), complete the handshake, close, open a second connection in the same direction, operator disable/enable, waits, `api-add` / `api-del` (0-2 further neighbours configured through the real AddPeer / DeletePeer handlers, 2 of 3 as members of a named peer group whose AS, hold time, families, add-path and route-server flag they inherit where they have none of their own, with graceful restart and per-family prefix limits of their own), and `dial`: the remote side of a non-passive neighbour listens and takes the daemon's own outgoing connection, in one third of the cases with an operator task that disables the neighbour at the instant the TCP handshake completes (after the connect task queued the socket, before the dispatch loop took it). Oracle on the wire and on Global: a connection is served (OPEN sent) iff the reference admission predicate holds, otherwise closed before any OPEN byte; the OPEN's AS (confederation id towards non-members), hold time, router id and capability list (families, add-path, graceful restart with its time and families, 4-octet AS) equal the neighbour's or group's configuration; the prefix limits in the peer record equal the configured ones; role read back from the peer record equals the reference; both negotiate(a,b)/negotiate(b,a) give mirror-image parameters; a dynamic neighbour's record disappears when its last connection ends. non-trivial = at least one dynamic neighbour was created or one connection was refused".into(),
             components_real: vec!["accept_connection, Global::add_peer, PeerParams::{build,build_local_cap}, Peer::peer_role, PeerSession::run (delete-on-disconnect)".into(), "packet::{IpNet::contains, PeerCodec::negotiate}".into(), "fsm::PeerFsm (effective send-max)".into(), "GrpcService::{disable_peer,enable_peer}".into()],
             components_stubbed: vec!["TCP (the remote address is whatever the scenario says), clock, listener loop, remote speakers".into()],
             assumptions: vec!["where several dynamic prefixes match, any matching group may be chosen (the statement does not pick one)".into()],
@@ -136,7 +171,7 @@ fn contains(prefix: &str, addr: &IpAddr) -> bool {
 async fn run(case: Json, tol: Tolerate) -> Outcome {
     let mut out = Outcome::default();
     let confed = case.get("confed").map(|b| b.as_bool()).unwrap_or(false);
-    let statics: Vec<StaticCfg> = case
+    let mut statics: Vec<StaticCfg> = case
         .get("statics")
         .map(|s| {
             s.arr()
@@ -152,6 +187,8 @@ async fn run(case: Json, tol: Tolerate) -> Outcome {
                     addpath: j.i("addpath", 0) as u8,
                     gr: j.get("gr").map(|b| b.as_bool()).unwrap_or(false),
                     active: j.get("active").map(|b| b.as_bool()).unwrap_or(false),
+                    plimit: 0,
+                    gr_mask: j.i("fams", 0) as u64,
                 })
                 .collect()
         })
@@ -169,11 +206,32 @@ async fn run(case: Json, tol: Tolerate) -> Outcome {
                     rr: false,
                     fam_mask: j.i("fams", 0) as u64,
                     addpath: j.i("addpath", 0) as u8,
+                    gr: j.get("gr").map(|b| b.as_bool()).unwrap_or(false) && j.i("fams", 0) != 0,
                 })
                 .collect()
         })
         .unwrap_or_default();
 
+    let api_peers: Vec<ApiPeerCfg> = case
+        .get("api_peers")
+        .map(|s| {
+            s.arr()
+                .iter()
+                .map(|j| ApiPeerCfg {
+                    addr: j.s("addr").to_string(),
+                    asn: j.i("asn", 0) as u32,
+                    hold: j.i("hold", 0) as u64,
+                    fam_mask: j.i("fams", 0) as u64,
+                    addpath: j.i("addpath", 0) as u8,
+                    gr: j.get("gr").map(|b| b.as_bool()).unwrap_or(false),
+                    plimit: j.i("plimit", 0) as u32,
+                    rs: j.get("rs").map(|b| b.as_bool()).unwrap_or(false),
+                    rr: j.get("rr").map(|b| b.as_bool()).unwrap_or(false),
+                    group: j.i("group", -1),
+                })
+                .collect()
+        })
+        .unwrap_or_default();
     let mut wcfg = WorldCfg::default();
     if confed {
         wcfg.confed = Some((64512, vec![65000, 65100]));
@@ -214,7 +272,7 @@ async fn run(case: Json, tol: Tolerate) -> Outcome {
                     connect_retry_time: None,
                     families: fams_of(gc.fam_mask).into_iter().map(|f| (f, gc.addpath & 3)).collect(),
                     send_max: if gc.addpath & 2 != 0 { fams_of(gc.fam_mask).into_iter().map(|f| (f, 2)).collect() } else { Default::default() },
-                    graceful_restart: None,
+                    graceful_restart: if gc.gr { Some(GrPeerConfig { restart_time: 77, notification_enabled: true, families: fams_of(gc.fam_mask) }) } else { None },
                     llgr: None,
                 },
             );
@@ -416,10 +474,27 @@ async fn run(case: Json, tol: Tolerate) -> Outcome {
                     if !o.capability.iter().any(|c| matches!(c, packet::Capability::FourOctetAsNumber(_))) {
                         fail!("open/no-four-octet-as-capability", "op {}", opi);
                     }
+                    // graceful restart: advertised iff configured, with the configured time and families
+                    {
+                        let got_gr = o.capability.iter().find_map(|c| if let packet::Capability::GracefulRestart { restart_time, families, .. } = c { Some((*restart_time, families.iter().map(|(f, _)| fam_key(*f)).collect::<BTreeSet<u32>>())) } else { None });
+                        let gr_of = |on: bool, mask: u64| if on && mask != 0 { Some((77u16, fams_of(mask).into_iter().map(fam_key).collect::<BTreeSet<u32>>())) } else { None };
+                        let exp_gr: Vec<Option<(u16, BTreeSet<u32>)>> = match st {
+                            Some(i) => vec![gr_of(statics[i].gr, statics[i].gr_mask)],
+                            None => matching.iter().map(|g| gr_of(g.gr, g.fam_mask)).collect(),
+                        };
+                        if !exp_gr.contains(&got_gr) {
+                            fail!("open/graceful-restart-differs-from-configuration", "op {}: OPEN carries {:?}, configured {:?}", opi, got_gr, exp_gr);
+                        }
+                    }
                     // role as recorded for the peer
                     if let Some(i) = st {
                         let g = w.global.read().await;
                         if let Some(p) = g.peers.get(&addr) {
+                            let got_pl: BTreeMap<u32, u32> = p.config.prefix_limits.iter().map(|(f, m)| (fam_key(*f), *m)).collect();
+                            let exp_pl: BTreeMap<u32, u32> = if statics[i].plimit > 0 { fams_of(statics[i].fam_mask).into_iter().map(|f| (fam_key(f), statics[i].plimit)).collect() } else { BTreeMap::new() };
+                            if got_pl != exp_pl {
+                                fail!("setup/prefix-limits-differ-from-configuration", "op {}: neighbour {} has prefix limits {:?}, configured {:?}", opi, addr, got_pl, exp_pl);
+                            }
                             let role = p.peer_role(&g);
                             let exp = if statics[i].rs {
                                 table::PeerRole::RsClient
@@ -500,6 +575,66 @@ async fn run(case: Json, tol: Tolerate) -> Outcome {
                     admin_down[i] = false;
                 }
                 out.hit(&format!("op.{}", tag));
+            }
+            "api-add" if !api_peers.is_empty() => {
+                let a = &api_peers[op.at(1).as_usize() % api_peers.len()];
+                if statics.iter().any(|s| s.addr == a.addr) {
+                    continue;
+                }
+                let grp = if a.group >= 0 { groups.get(a.group as usize) } else { None };
+                let fams = fams_of(a.fam_mask);
+                let afi_safis: Vec<api::AfiSafi> = fams
+                    .iter()
+                    .map(|f| api::AfiSafi {
+                        config: Some(api::AfiSafiConfig { family: Some(crate::convert::family_to_api(*f)), enabled: true }),
+                        add_paths: Some(api::AddPaths { config: Some(api::AddPathsConfig { receive: a.addpath & 1 != 0, send_max: if a.addpath & 2 != 0 { 2 } else { 0 } }), state: None }),
+                        mp_graceful_restart: if a.gr { Some(api::MpGracefulRestart { config: Some(api::MpGracefulRestartConfig { enabled: true }), state: None }) } else { None },
+                        prefix_limits: if a.plimit > 0 { Some(api::PrefixLimit { family: Some(crate::convert::family_to_api(*f)), max_prefixes: a.plimit, shutdown_threshold_pct: 0 }) } else { None },
+                        ..Default::default()
+                    })
+                    .collect();
+                let peer = api::Peer {
+                    conf: Some(api::PeerConf { neighbor_address: a.addr.clone(), peer_asn: a.asn, peer_group: if a.group >= 0 { format!("g{}", a.group) } else { String::new() }, ..Default::default() }),
+                    timers: Some(api::Timers { config: Some(api::TimersConfig { hold_time: a.hold, ..Default::default() }), state: None }),
+                    transport: Some(api::Transport { passive_mode: true, ..Default::default() }),
+                    afi_safis,
+                    graceful_restart: if a.gr { Some(api::GracefulRestart { enabled: true, restart_time: 77, notification_enabled: true, ..Default::default() }) } else { None },
+                    route_server: Some(api::RouteServer { route_server_client: a.rs, secondary_route: false }),
+                    route_reflector: Some(api::RouteReflector { route_reflector_client: a.rr, route_reflector_cluster_id: String::new() }),
+                    ..Default::default()
+                };
+                match w.grpc.add_peer(tonic::Request::new(api::AddPeerRequest { peer: Some(peer) })).await {
+                    Ok(_) => {
+                        // what the statement says the neighbour's settings are: its own, else its group's
+                        let own_fams = a.fam_mask != 0;
+                        statics.push(StaticCfg {
+                            addr: a.addr.clone(),
+                            asn: if a.asn != 0 { a.asn } else { grp.map(|g| g.asn).unwrap_or(0) },
+                            hold: if a.hold != 0 { a.hold } else { grp.map(|g| g.hold).filter(|h| *h != 0).unwrap_or(180) },
+                            admin_down: false,
+                            rs: a.rs || grp.is_some_and(|g| g.rs),
+                            rr: a.rr,
+                            fam_mask: if own_fams { a.fam_mask } else { grp.map(|g| g.fam_mask).unwrap_or(0) },
+                            addpath: if own_fams { a.addpath } else { grp.map(|g| if g.fam_mask != 0 { g.addpath } else { 0 }).unwrap_or(0) },
+                            gr: (a.gr && own_fams) || grp.is_some_and(|g| g.gr),
+                            active: false,
+                            plimit: if own_fams { a.plimit } else { 0 },
+                            gr_mask: if a.gr && own_fams { a.fam_mask } else { grp.map(|g| g.fam_mask).unwrap_or(0) },
+                        });
+                        admin_down.push(false);
+                        out.hit(if grp.is_some() { "op.api-neighbour-added-in-group" } else { "op.api-neighbour-added" });
+                    }
+                    Err(_) => out.hit("op.api-neighbour-refused"),
+                }
+            }
+            "api-del" if !api_peers.is_empty() => {
+                let a = &api_peers[op.at(1).as_usize() % api_peers.len()];
+                if let Some(i) = statics.iter().position(|s| s.addr == a.addr) {
+                    let _ = w.grpc.delete_peer(tonic::Request::new(api::DeletePeerRequest { address: a.addr.clone(), ..Default::default() })).await;
+                    statics.remove(i);
+                    admin_down.remove(i);
+                    out.hit("op.api-neighbour-deleted");
+                }
             }
             "wait" => {
                 tokio::time::sleep(Duration::from_millis(op.at(1).as_u64())).await;
